@@ -355,6 +355,8 @@ impl Executor {
                 OpCode::VAppend => self.do_binop(|v1, v2| {
                     let mut v1 = v1.into_vector()?;
                     let v2 = v2.into_vector()?;
+                    // doubling (dup; vappend) in a loop reaches lengths beyond usize in ~60 cheap steps
+                    v1.len().checked_add(v2.len())?;
 
                     v1.append(v2);
 
@@ -441,6 +443,8 @@ impl Executor {
                     let v2: CatVec<u8, 256> = v2.into_bytes()?;
 
                     log::trace!("Appending a vector that contains {:?} to a vector that contains {:?}", &v2, &v1);
+                    // doubling (dup; bappend) in a loop reaches lengths beyond usize in ~60 cheap steps
+                    v1.len().checked_add(v2.len())?;
 
                     v1.append(v2);
 
